@@ -1096,6 +1096,16 @@ func (g *Gen) VerifyFunction(fn *ssa.Function) (err error) {
 			panic(r)
 		}
 	}()
+	if tps := fn.Signature.RecvTypeParams(); tps != nil {
+		for i := 0; i < tps.Len(); i++ {
+			g.tparamTypes[tps.At(i).Obj().Name()] = tps.At(i)
+		}
+	}
+	if tps := fn.Signature.TypeParams(); tps != nil {
+		for i := 0; i < tps.Len(); i++ {
+			g.tparamTypes[tps.At(i).Obj().Name()] = tps.At(i)
+		}
+	}
 	fr := g.newFrame(fn, nil, "")
 	fc := fr.contract
 	if fc == nil {
